@@ -67,6 +67,7 @@ type Prog struct {
 	Cfg      Config
 	Items    []Item
 	EndArg   Expr // nil = plain END
+	EndLabels []string // labels written in front of END: they denote the address after the last instruction
 	Name     string
 	Author   string
 	Strategy []string // one entry per ;strategy line
@@ -366,6 +367,9 @@ func (p *Prog) Meaning() (*Meaning, error) {
 		case *Org:
 			org = x.E
 		}
+	}
+	for _, l := range p.EndLabels {
+		labels[l] = len(instrs)
 	}
 	consts := map[string]int{"CORESIZE": cfg.CoreSize, "MAXLENGTH": cfg.Length, "MAXPROCESSES": cfg.Processes, "MINDISTANCE": cfg.Distance}
 	envAt := func(line int) *Env {
